@@ -115,6 +115,15 @@ func runStream(mode string, b []byte, ops []string) string {
 	default:
 		return "bad-op"
 	}
+	out, ok := runScript(s, ops)
+	if !ok {
+		return "bad-op"
+	}
+	return strings.Join(out, ";") + " c=" + strconv.Itoa(len(b)-rd.Len())
+}
+
+// runScript calls the Stream methods named by ops and renders each result.
+func runScript(s *rlp.Stream, ops []string) ([]string, bool) {
 	var out []string
 	put := func(ok string, err error) {
 		if err != nil {
@@ -167,10 +176,10 @@ func runStream(mode string, b []byte, ops []string) string {
 				put("A:"+showVal(reflect.ValueOf(&v).Elem()), nil)
 			}
 		default:
-			return "bad-op"
+			return nil, false
 		}
 	}
-	return strings.Join(out, ";") + " c=" + strconv.Itoa(len(b)-rd.Len())
+	return out, true
 }
 
 func resE(ok string, err error) string {
@@ -258,6 +267,11 @@ func execOp(line string) string {
 			return "err"
 		}
 		return "ok " + showVal(v.Elem())
+	case "api":
+		if len(w) != 2 {
+			return "bad-op"
+		}
+		return runApi(strings.Split(w[1], ";"))
 	case "encbuf":
 		if len(w) != 2 {
 			return "bad-op"
@@ -304,7 +318,7 @@ func execOp(line string) string {
 // instead of taking the sandbox down (the unfixed decodeByteArray loops forever while
 // growing a slice on `dec S,a1 c100`).
 
-var opStart int64 // unix nano of the running op, 0 when idle
+var opStart int64      // unix nano of the running op, 0 when idle
 var curOp atomic.Value // the op line being executed (string)
 var curPath string     // where to leave it if the watchdog aborts (vlib reads <ops>.cur)
 
